@@ -140,7 +140,7 @@ func runC04(c *Ctx) {
 	mon.DiscardStdLog()
 	k := c.Pick(512, 8192)
 	var mu sync.Mutex
-	var evals, takenN, untakenN, overlapN, wrapN, laws, directN int64
+	var evals, takenN, untakenN, overlapN, wrapN, laws, directN, cowN int64
 	distinct := mon.NewDistinct(4_000_000)
 
 	type opdef struct {
@@ -181,7 +181,7 @@ func runC04(c *Ctx) {
 		mem.Logging = true
 		var rc mon.RetCounter
 		hn, hi := rc.Handlers()
-		var lev, ltk, lutk, lov, lwr, ldirect int64
+		var lev, ltk, lutk, lov, lwr, ldirect, lcow int64
 		var dm z80.DumbMemory
 		var mm z80.MapMemory
 		outer := 256
@@ -423,6 +423,32 @@ func runC04(c *Ctx) {
 					}
 					ldirect++
 				}
+				// every 8th pushing case again on a frozen copy-on-write image: the first write
+				// makes the host attach a private copy to CPU.Memory from inside Set; the second
+				// stack byte must land in that copy too (both bytes at SP-1 / SP-2 of the memory
+				// attached when the Step returns)
+				if bad == "" && len(exp.Writes) == 2 && (i*k+j)%8 == 2 {
+					mem.Reset()
+					mem.Place(pre.PC, bs...)
+					cpost, over, stale, cpan := stepCOW(mem, pre, 0)
+					cp := Arch(cpost)
+					cp.IR.Lo = exp.Post.IR.Lo
+					switch {
+					case cpan != nil:
+						bad = fmt.Sprintf("panic on a copy-on-write memory: %v", cpan)
+					case cp != exp.Post:
+						bad = "outcome differs on a copy-on-write memory"
+					case stale != 0:
+						bad = "a stack byte was written to the memory object that was attached when the instruction started, not to the one the host attached during the first write (copy-on-write)"
+					default:
+						for _, w := range exp.Writes {
+							if v, ok := over[w.Addr]; !ok || v != w.Val {
+								bad = "stack bytes incomplete in the memory attached after a copy-on-write switch"
+							}
+						}
+					}
+					lcow++
+				}
 				if bad != "" {
 					c.R.Violation(fmt.Sprintf("C04/%s/%s", od.name, bad), map[string]interface{}{
 						"instruction": od.name, "bytes": HexBytes(bs), "what": bad, "pre": DumpState(&pre, false),
@@ -442,6 +468,7 @@ func runC04(c *Ctx) {
 		overlapN += lov
 		wrapN += lwr
 		directN += ldirect
+		cowN += lcow
 		mu.Unlock()
 	})
 
@@ -726,6 +753,7 @@ func runC04(c *Ctx) {
 	c.R.Set("stack_overlaps_instruction_cases", overlapN)
 	c.R.Set("wrap_cases", wrapN)
 	c.R.Set("cases_also_on_DumbMemory_or_MapMemory_directly", directN)
+	c.R.Set("pushing_cases_also_on_a_copy_on_write_memory", cowN)
 	c.R.Set("instructions", int64(len(ops)))
 	c.R.Set("exhaustive", false)
 	c.R.Set("exhaustive_over", "all 256 F for each of the 28 conditional opcodes, all 256 B for DJNZ, all 256 offsets for JR/JR cc/DJNZ; data sampled")
